@@ -344,9 +344,11 @@ M_C05(pre, a, obs, post) ==
         subj == IF f.src \in Users THEN f.src ELSE SessUser[f.s] IN
     IF ~(pre.cache[t].loaded /\ post.cache[t].loaded) \/ subj \notin Users THEN {}
     ELSE LET p0 == pre.cache[t].per[subj]  p1 == post.cache[t].per[subj]
-             w == ApplyMutation(IF p0.in THEN M(p0.want) ELSE None, IF f.want = <<"-">> THEN <<>> ELSE f.want)
-             g == ApplyMutation(IF p0.in THEN M(p0.given) ELSE None, IF f.given = <<"-">> THEN <<>> ELSE f.given)
-         IN IF ~p1.in THEN {}      \* subscription removed: the notice says N/N, nothing left to track
+             \* (a p2p participant who unsubscribed stays cached, flagged deleted: the unsubscription's notice said N/N)
+             held == p0.in /\ ~p0.deleted
+             w == ApplyMutation(IF held THEN M(p0.want) ELSE None, IF f.want = <<"-">> THEN <<>> ELSE f.want)
+             g == ApplyMutation(IF held THEN M(p0.given) ELSE None, IF f.given = <<"-">> THEN <<>> ELSE f.given)
+         IN IF ~p1.in \/ p1.deleted THEN {}      \* subscription removed: the notice says N/N, nothing left to track
             ELSE If(w.ok /\ g.ok, "NoticeIsWellFormed")
                  \cup If(w.m = M(p1.want) /\ g.m = M(p1.given), "FollowerOfNoticesMatchesTopic")
     : ff \in obs.acs }
